@@ -878,7 +878,7 @@ class Renderer:
                 if uses:
                     data['uses'] = uses
                 if top:
-                    return Config(self.store, name=cfg['name'] + name_suffix, data=data, context=ctx, global_vars=gv)
+                    return Config(self.store, name=render.get('root_name') or (cfg['name'] + name_suffix), data=data, context=ctx, global_vars=gv)
                 return Config(self.store, name=cfg['name'] + name_suffix, data=data, global_vars=gv)
             if outer:
                 inner = mk(root['cfg'])
@@ -895,6 +895,8 @@ class Renderer:
         multi_path = d / f'all{name_suffix}.{ext}'
 
         def path_of(ci):
+            if ci == root['cfg'] and render.get('root_name') and not outer:
+                return d / f'{render["root_name"]}.{ext}'
             return d / f'{world["configs"][ci]["name"]}{name_suffix}.{ext}'
 
         def wr(ci):
